@@ -11,6 +11,8 @@ import (
 	"github.com/DataDog/datadog-traceroute/common"
 
 	"verif/harness/fw"
+	"verif/harness/gen"
+	"verif/harness/refmatch"
 	"verif/harness/scripted"
 )
 
@@ -136,7 +138,7 @@ func checkC07() fw.Check {
 	return fw.Check{
 		Prop:  "C07",
 		Level: "exploration",
-		Rule: "exhaustive tier: every tuple of <=K scripted replies (TTL x hop/dest x delivery slot, slots = after first send / between sends / exactly at a send instant / after last send / mid-wait / last poll / 1us before deadline) for n TTLs, run through the real TracerouteParallel in a virtual-time bubble; random tier: n<=255, <=4 replies per TTL; stress tier: real goroutines under the race detector with Gosched/us sleeps injected at the two driver boundaries. Oracle: result == clip(fold(replies in hand-out order)). " +
+		Rule: "exhaustive tier: every tuple of <=K scripted replies (TTL x hop/dest x delivery slot, slots = after first send / between sends / exactly at a send instant / after last send / mid-wait / last poll / 1us before deadline) for n TTLs, run through the real TracerouteParallel in a virtual-time bubble; random tier: n<=255, <=4 replies per TTL; stress tier: real goroutines under the race detector with Gosched/us sleeps injected at the two driver boundaries. Oracle: result == clip(fold(replies in hand-out order)).  plus every parallel REAL variant over the simulated wire with a second-path router and the destination answering the same TTL in both orders, and duplicated router replies, judged by the reference fold; " +
 			"distinct_nontrivial = number of distinct send/reply interleaving strings observed at the driver boundary with at least one reply handed out",
 		Workers:       16,
 		MinNontrivial: 50,
@@ -283,6 +285,56 @@ func checkC07() fw.Check {
 						c.Nontrivial(fmt.Sprintf("stress:%x", fw.Hash32(il)))
 					}
 				}})
+			}
+			// the merge rules behind the REAL drivers of the parallel variants (simulated wire): for the destination's TTL a
+			// router on a second path answers first and the destination afterwards (destination overrides), or the
+			// destination first and the router afterwards (first accepted reply of equal rank stays); a duplicate of a
+			// router's reply with another delay (first wins). A driver that filters "second replies" on its own never shows
+			// them to the engine's merge. Judged by the reference fold over the frames the handle read.
+			for _, v := range refmatch.Variants {
+				if v.Serial {
+					continue
+				}
+				for _, order := range []string{"router-then-dest", "dest-then-router", "router-twice"} {
+					for _, w := range []window{{1, 8}, {3, 12}} {
+						v, order, w := v, order, w
+						id := fmt.Sprintf("C07/real/%s/%s/%d-%d", v.Name, order, w.first, w.last)
+						cases = append(cases, fw.Case{ID: id, Bubble: true, Run: func(c *fw.Ctx) {
+							dist := w.first + (w.last-w.first)/2
+							sc := scenario{tag: id, v: v, win: w, b: basesQuick[0], model: func(e *simEnv) *pathModel {
+								m := &pathModel{hops: map[int]*hopSpec{}, dist: dist, destDelay: 30 * time.Millisecond}
+								for t := w.first; t < dist; t++ {
+									m.hops[t] = &hopSpec{addr: routerAddr(v.V6, 1, t), delay: time.Duration(5+t) * time.Millisecond}
+									if order == "router-twice" {
+										m.hops[t].dups = []time.Duration{time.Duration(25+t) * time.Millisecond}
+									}
+								}
+								if order != "router-twice" {
+									other := 3 * time.Millisecond
+									if order == "dest-then-router" {
+										other = 70 * time.Millisecond
+									}
+									m.extra = func(e *simEnv, p *refmatch.Probe) {
+										if p.TTL == dist {
+											e.inject(gen.WrapError(routerAddr(v.V6, 2, p.TTL), e.local, gen.TimeExceeded, 0, gen.QuoteBytes(p, 1, "fix"), "min", nil, 0),
+												"second-path-router-same-ttl", p, oddUS(other))
+										}
+									}
+								}
+								return m
+							}}
+							out := runScenario(c, sc)
+							if out == nil {
+								return
+							}
+							defer out.e.close()
+							if out.res.Err == nil && out.res.Run != nil {
+								c.Nontrivial(fmt.Sprintf("real/%s/%s", v.Name, order))
+								c.Count("real_variant_runs", 1)
+							}
+						}})
+					}
+				}
 			}
 			return cases
 		},
